@@ -8,7 +8,7 @@ From DnsV Require Import Base.Bytes Base.Ip Model.Rearranger.
 From DnsV Require Import Model.Diff Spec.MapOfLists Proofs.MultiValue Proofs.MapOfLists Proofs.Batch Proofs.CompilePipe Proofs.Diff.
 From DnsV Require Import Model.Text Model.Preproc.
 From DnsV Require Import Proofs.Rearranger Proofs.TextSizes Proofs.LinkDiffText Proofs.LinkPreprocRearranger Proofs.LinkPreprocDiff.
-From DnsV Require Proofs.Preproc.
+From DnsV Require Proofs.Preproc Proofs.Text Proofs.Svcb.
 From Coq Require Import Permutation Lia ZifyN ZifyNat ZifyBool.
 Open Scope N_scope.
 
@@ -54,11 +54,17 @@ Proof.
   apply pre_line_text; [exact Hip | apply H; exact Hl].
 Qed.
 
-Lemma short_tail : forall c arg, short_lineb (c :: arg) = true -> short_lineb arg = true.
+Lemma of_nat_le : forall x y : nat, (x <= y)%nat -> N.of_nat x <= N.of_nat y.
+Proof. intros. lia. Qed.
+
+Lemma short_mono : forall a b : bytes, (length a <= length b)%nat -> short_lineb b = true -> short_lineb a = true.
 Proof.
-  intros c arg H. unfold short_lineb in *. rewrite nlen_cons in H. apply N.leb_le in H. apply N.leb_le.
-  generalize dependent (nlen arg). intros x H. lia.
+  intros a b L H. unfold short_lineb in *. apply N.leb_le in H. apply N.leb_le.
+  eapply N.le_trans; [|exact H]. unfold nlen. apply of_nat_le. exact L.
 Qed.
+
+Lemma short_tail : forall c arg, short_lineb (c :: arg) = true -> short_lineb arg = true.
+Proof. intros c arg H. apply (short_mono arg (c :: arg)); [cbn [length]; lia | exact H]. Qed.
 
 Lemma plus_small_short : forall o v2 serial d, parse_ip_16 o -> forallb short_lineb d = true ->
   forallb (plus_smallb o v2 serial) d = true.
@@ -78,9 +84,8 @@ Qed.
 Lemma scan_short : forall f, forallb short_lineb f = true -> forallb short_lineb (scan f) = true.
 Proof.
   intros f H. rewrite forallb_forall in *. intros l Hl. unfold scan in Hl. apply filter_In in Hl as [Hl _].
-  apply in_map_iff in Hl as (l0 & <- & H0). specialize (H l0 H0). pose proof (trim_spaces_len l0) as T.
-  unfold short_lineb in *. apply N.leb_le in H. apply N.leb_le. unfold nlen in *.
-  generalize dependent (length (trim_spaces l0)). generalize dependent (length l0). intros a H b T. lia.
+  apply in_map_iff in Hl as (l0 & <- & H0). specialize (H l0 H0).
+  exact (short_mono _ _ (trim_spaces_len l0) H).
 Qed.
 
 Lemma recs_of_short : forall o v2 serial l, parse_ip_16 o -> short_lineb l = true ->
@@ -89,4 +94,73 @@ Proof.
   intros o v2 serial l Hip S. unfold recs_of. pose proof (convert_error_spec o v2 serial l) as Sp.
   destruct (convert_ln o v2 serial l) as [x|]; [|constructor]. destruct Sp as (_ & r & P & ->).
   apply kvs_okb_ok'. exact (short_line_small o v2 serial l r Hip P S).
+Qed.
+
+Lemma accum_kvs_ok : forall o v2 serial sort g,
+  kvs_ok (text_accum o v2 serial (rearrange_total sort) g).
+Proof.
+  intros o v2 serial sort g. unfold text_accum, kvs_ok. apply Forall_forall. intros p Hp.
+  apply in_flat_map in Hp as (r & Hr & Hp). unfold rearrange_total in Hr.
+  destruct (rearrange_text sort (nets_of_lines o serial g)) as [l|] eqn:E; [|destruct Hr].
+  destruct (rearrange_maps_in sort _ _ l r E Hr) as (m & pts & q & _ & _ & _ & ->).
+  rewrite convert_point_record in Hp. destruct Hp as [<-|[]]. cbn [snd]. unfold okv, rp_value, loc_bytes.
+  destruct (rl_null (p_loc q)); reflexivity.
+Qed.
+
+(* the value-size guard of the file-level theorems, from the length of the lines *)
+Theorem file_kvs_ok : forall o v2 serial sort f, parse_ip_16 o -> forallb short_lineb f = true ->
+  kvs_ok (records bytes (convert_ln o v2 serial) (text_accum o v2 serial (rearrange_total sort)) (features v2) (scan f)).
+Proof.
+  intros o v2 serial sort f Hip H. unfold records, kvs_ok. apply Forall_app. split; [|apply Forall_app; split].
+  - pose proof (scan_short f H) as S. rewrite forallb_forall in S.
+    apply Forall_forall. intros p Hp. apply in_flat_map in Hp as (l & Hl & Hp).
+    pose proof (recs_of_short o v2 serial l Hip (S l Hl)) as K. unfold kvs_ok in K. rewrite Forall_forall in K. exact (K p Hp).
+  - apply accum_kvs_ok.
+  - apply feature_okv.
+Qed.
+
+(* ---------------------------------------------------------------- the end-to-end theorem with syntactic guards *)
+Theorem preprocessed_diff_end_to_end_short : forall o,
+  (forall a, wf_bytes a -> length a = 16%nat -> o_parse_ip o (o_print_ip o a) = Some a) ->
+  o_parse_ip o [] = None ->
+  (forall a, contains 44 (o_print_ip o a) = false) ->
+  parse_ip_16 o ->
+  forall sort, sort_spec sort ->
+  forall v2 serial pserial, serial <= max32 -> pserial = serial \/ pserial = 0 ->
+  forall ksort, sort_ok ksort ->
+  forall A B,
+  Proofs.Preproc.wf_file o serial A -> file_subnets_wfb o serial A = true -> forallb short_lineb A = true ->
+  Proofs.Preproc.wf_file o serial B -> file_subnets_wfb o serial B = true -> forallb short_lineb B = true ->
+  exists bodyA pointsA bodyB pointsB,
+    preprocess o (rearrange_total sort) pserial A = Ok (bodyA ++ map (marshal o) pointsA) /\
+    preprocess o (rearrange_total sort) pserial B = Ok (bodyB ++ map (marshal o) pointsB) /\
+    forall pa pb, Permutation pa pointsA -> Permutation pb pointsB ->
+      let PA := bodyA ++ map (marshal o) pa in
+      let PB := bodyB ++ map (marshal o) pb in
+      scan PA = PA /\ scan PB = PB /\
+      (forall dbA, rdb_compilation bytes (convert_ln o v2 serial) (text_accum o v2 serial (rearrange_total sort))
+                     (features v2) (scan PA) dbA ->
+                   compiled (convert_ln o v2 serial) (features v2) PA dbA) /\
+      forall d dbA, is_line_diff PA PB d -> compiled (convert_ln o v2 serial) (features v2) PA dbA ->
+        exists db', apply_diff (convert_ln o v2 serial) ksort dbA d = Ok db' /\
+          compiled (convert_ln o v2 serial) (features v2) PB db' /\
+          forall dbB, rdb_compilation bytes (convert_ln o v2 serial) (text_accum o v2 serial (rearrange_total sort))
+                        (features v2) (scan B) dbB ->
+            forall k, Permutation (vals db' k) (vals dbB k).
+Proof.
+  intros o H1 H2 H3 Hip sort Hs v2 serial pserial Hser Hps ksort Hk A B WA NA SA WB NB SB.
+  exact (preprocessed_diff_end_to_end o H1 H2 H3 sort Hs v2 serial pserial Hser Hps ksort Hk A B
+           WA NA (file_kvs_ok o v2 serial sort A Hip SA) WB NB (file_kvs_ok o v2 serial sort B Hip SB)).
+Qed.
+
+(* o_toy returns 16-byte addresses; the example files are short *)
+Lemma toy_parse_ip_16 : parse_ip_16 Proofs.Text.o_toy.
+Proof.
+  intros s a H. cbn [o_parse_ip Proofs.Text.o_toy] in H. unfold Proofs.Svcb.ex_parse in H.
+  destruct s as [|x r]; [discriminate H|]. destruct (x =? 58).
+  - destruct (Proofs.Svcb.ex_unshift r) as [b|]; [|discriminate H].
+    destruct (length b =? 16)%nat eqn:L; [|discriminate H]. inversion H; subst. apply Nat.eqb_eq. exact L.
+  - destruct (Proofs.Svcb.ex_unshift (x :: r)) as [b|]; [|discriminate H].
+    destruct (length b =? 4)%nat eqn:L; [|discriminate H]. inversion H; subst. apply Nat.eqb_eq in L.
+    unfold Base.Text.v4_prefix. cbn [app length]. rewrite L. reflexivity.
 Qed.
